@@ -365,7 +365,7 @@ func genRequest(g *gen, c *Cfg, o *relayGenOpts, learnedHosts []string) Op {
 		proto = "tcp"
 	}
 	srcIP := topo.uas[g.intn(len(topo.uas))]
-	srcPort := g.pick2(5060, 5060, 5090, 40000+g.intn(1000))
+	srcPort := g.pick2(5060, 5060, 5090, 40000+g.intn(1000), 65535, 32768, 1024+g.intn(100))
 	if proto == "udp" && g.chance(7) {
 		// a request that one of the service's own backends originates, from its configured address and port
 		var bs []string
@@ -575,7 +575,7 @@ func genRequest(g *gen, c *Cfg, o *relayGenOpts, learnedHosts []string) Op {
 			case 1:
 				params = ";rport" + params
 			case 2:
-				params += ";rport=" + strconv.Itoa(1000+g.intn(5000)) // spoofed
+				params += ";rport=" + strconv.Itoa(g.pick2(1000+g.intn(5000), 65535, 0, 40000+g.intn(20000))) // spoofed
 			}
 			if g.chance(15) {
 				params += ";received=" + g.pick("192.0.2.99", "10.66.6.6") // spoofed
@@ -683,7 +683,7 @@ func genResponse(g *gen, c *Cfg, o *relayGenOpts) Op {
 			}
 		} else {
 			host = g.pick(topo.uas[g.intn(len(topo.uas))], topo.hops[g.intn(len(topo.hops))], "nh1.hops.test", "nh2.hops.test")
-			port = g.pick2(0, 5060, 5090, 5080)
+			port = g.pick2(0, 5060, 5090, 5080, 40123, 65535)
 		}
 		params := ";branch=z9hG4bK" + g.alnum(6, 12)
 		tr := g.pick("UDP", "UDP", "UDP", "TCP")
@@ -696,13 +696,13 @@ func genResponse(g *gen, c *Cfg, o *relayGenOpts) Op {
 			case 0:
 				params += ";received=" + topo.uas[g.intn(len(topo.uas))]
 			case 1:
-				params += ";received=" + topo.uas[g.intn(len(topo.uas))] + ";rport=" + strconv.Itoa(g.pick2(5060, 5090))
+				params += ";received=" + topo.uas[g.intn(len(topo.uas))] + ";rport=" + strconv.Itoa(g.pick2(5060, 5090, 40123, 65535))
 			case 2:
 				params += ";rport;received=" + topo.uas[g.intn(len(topo.uas))]
 			case 3:
 				params += ";rport"
 			case 4:
-				params += ";rport=" + strconv.Itoa(g.pick2(5060, 5090)) // rport without received
+				params += ";rport=" + strconv.Itoa(g.pick2(5060, 5090, 40123, 65535)) // rport without received
 			}
 		}
 		if g.chance(20) {
